@@ -42,23 +42,24 @@ Definition shallow_of (tbl : list tyinfo) : list (string * string) :=
   flat_map (fun t => map (fun f => (ty_name t, f)) (ty_shallow t)) tbl.
 
 (* map ranges of the apply path whose outcome syntactically depends on the iteration order, with the reason each is harmless
-   (or the finding that records it) *)
+   (or the finding that records it). A site is named by its function, the map FIELD it ranges over and its position among the
+   order-dependent ranges over that field in the function (renaming a variable or touching another loop does not move it). *)
 Definition S (f e : string) (n : nat) : site := {| s_func := f; s_expr := e; s_ord := n; s_choice := true |}.
 Definition justified_choices : list site := [
-  S "Data.CheckStreamExistInDatabase" "data.Streams" 1;       (* existence test: a disjunction over the elements *)
-  S "Data.CheckStreamExistInMst" "data.Streams" 1;            (* existence test *)
-  S "Data.CheckStreamExistInRetention" "data.Streams" 1;      (* existence test *)
-  S "Data.CreateContinuousQueryBase" "data.Databases" 1;      (* existence test (name already used) *)
-  S "Data.checkDDLConflict" "dbi.RetentionPolicies" 1;        (* existence test *)
-  S "Data.checkDDLConflict" "rpi.Measurements" 1;             (* existence test *)
-  S "Data.CreateShardGroup" "rpi.Measurements" 1;             (* any measurement: only its sharding type is used, uniform per policy *)
-  S "RetentionPolicyInfo.validMeasurementShardType" "rpi.Measurements" 1; (* any other measurement: sharding type uniform per policy *)
-  S "RetentionPolicyInfo.shardingType" "rpi.Measurements" 1;  (* last one wins: sharding type uniform per policy *)
-  S "Data.DropMeasurement" "rpi.Measurements" 1;              (* search for a key: at most one element matches *)
-  S "Data.mapShardsToMst" "rpi.Measurements" 1;               (* scratch variable declared outside the loop, written and read within one iteration *)
-  S "Data.RecoverData" "metaData.PtView" 1;                   (* RecoverMetaData: outside the exercised command set *)
-  S "storeFSM.applyDropDatabaseCommand" "dbi.ContinuousQueries" 1; (* removes names from the sorted scheduling list: set semantics, not catalogue *)
-  S "Data.DropSubscription" "db.RetentionPolicies" 3          (* NOT harmless: finding C15-dropsubscription-map-order *)
+  S "Data.CheckStreamExistInDatabase" "Streams" 1;       (* existence test: a disjunction over the elements *)
+  S "Data.CheckStreamExistInMst" "Streams" 1;            (* existence test *)
+  S "Data.CheckStreamExistInRetention" "Streams" 1;      (* existence test *)
+  S "Data.CreateContinuousQueryBase" "Databases" 1;      (* existence test (name already used) *)
+  S "Data.checkDDLConflict" "RetentionPolicies" 1;        (* existence test *)
+  S "Data.checkDDLConflict" "Measurements" 1;             (* existence test *)
+  S "Data.CreateShardGroup" "Measurements" 1;             (* any measurement: only its sharding type is used, uniform per policy *)
+  S "RetentionPolicyInfo.validMeasurementShardType" "Measurements" 1; (* any other measurement: sharding type uniform per policy *)
+  S "RetentionPolicyInfo.shardingType" "Measurements" 1;  (* last one wins: sharding type uniform per policy *)
+  S "Data.DropMeasurement" "Measurements" 1;              (* search for a key: at most one element matches *)
+  S "Data.mapShardsToMst" "Measurements" 1;               (* scratch variable declared outside the loop, written and read within one iteration *)
+  S "Data.RecoverData" "PtView" 1;                   (* returns on a missing key of the map it ranges over: cannot happen *)
+  S "storeFSM.applyDropDatabaseCommand" "ContinuousQueries" 1; (* removes names from the sorted scheduling list: set semantics, not catalogue *)
+  S "Data.DropSubscription" "RetentionPolicies" 1          (* NOT harmless: finding C15-dropsubscription-map-order *)
 ].
 
 (* Every access of the apply path (storeFSM.Apply/ApplyBatch/Restore/Snapshot/executeCmd and everything they reach) to a
